@@ -55,7 +55,22 @@ def Out.line : Out → Line
 
 def renderLines (mode : NewlineOutput) (ls : List Line) : Bytes := ls.flatMap (renderLine mode)
 
-def render (mode : NewlineOutput) (os : List Out) : Bytes := renderLines mode (os.map Out.line)
+/-- a bare `output << last_terminator` of `write_define_hunk` (the pseudo line ⟨"", t⟩) -/
+def Out.isBare : Out → Bool
+  | .directive l => l.content.isEmpty
+  | _ => false
+
+/-- `LineWriter::terminate_last_line` (D97): only the last line of a file may be missing its newline; if more is written after a line which
+    does, a newline is written first (`*this << NewLine::LF`, the pseudo line ⟨"", lf⟩). A bare terminator written by `write_define_hunk`
+    itself resets the flag without anything being added. -/
+def terminateInner : List Out → List Out
+  | [] => []
+  | [o] => [o]
+  | o :: o2 :: rest =>
+    if o.line.newline = .none && !o2.isBare then o :: Out.directive ⟨[], .lf⟩ :: terminateInner (o2 :: rest)
+    else o :: terminateInner (o2 :: rest)
+
+def render (mode : NewlineOutput) (os : List Out) : Bytes := renderLines mode ((terminateInner os).map Out.line)
 
 /-- `for (; i < j; ++i) output << lines.at(i)` as tagged items -/
 def copyRange (file : List Line) (i n : Nat) : List Out :=
